@@ -312,6 +312,121 @@ func runC19(c *Ctx) {
 		}
 	}
 
+	// ------------------------------------------------------------ Z8
+	c.Rule("C19.Z8", "DECISION", "(*Sync).schedule never loses a dependency edge: when a request for the hash is already pending it appends the new request's parents to that request; otherwise it puts the request into the requests map and the queue, on every path; (*Sync).Process refuses a result that was not requested or was already processed before it touches the request, and stores the data in the request before children are computed")
+	c.Min(3)
+	{
+		sch := w.Fn("trie", "Sync", "schedule")
+		c.sawFunc(fname(sch))
+		parentsF := w.Field("trie", "request", "parents")
+		requestsF := w.Field("trie", "Sync", "requests")
+		nDup, nNew, bad := 0, 0, ""
+		okEnum := enumPaths(sch, 200, func(pr PathResult) {
+			found := false
+			var lk *ssa.Lookup
+			for _, a := range atomsOf(pr.Facts) {
+				if a.Kind != "true" {
+					continue
+				}
+				if ex, ok := stripConv(a.X).(*ssa.Extract); ok {
+					if l, ok := ex.Tuple.(*ssa.Lookup); ok {
+						if f, _ := loadedField(stripConv(l.X)); f == requestsF {
+							found, lk = a.Truth, l
+						}
+					}
+				}
+			}
+			if lk == nil {
+				bad = "a path does not look the hash up in the requests map"
+				return
+			}
+			linked, inserted, queued := false, false, false
+			for _, fw := range fieldWrites(sch) {
+				if !pr.Blocks[fw.Instr.Block()] {
+					continue
+				}
+				if fw.Field == parentsF && fw.Kind == "store" {
+					// old.parents = append(old.parents, req.parents...)
+					if cc, ok := stripConv(fw.Instr.(*ssa.Store).Val).(*ssa.Call); ok {
+						if bi, ok := cc.Call.Value.(*ssa.Builtin); ok && bi.Name() == "append" && len(cc.Call.Args) == 2 {
+							f0, _ := loadedField(stripConv(cc.Call.Args[0]))
+							f1, b1 := loadedField(stripConv(cc.Call.Args[1]))
+							if f0 == parentsF && f1 == parentsF && b1 == ssa.Value(sch.Params[1]) {
+								linked = true
+							}
+						}
+					}
+				}
+				if fw.Field == requestsF && fw.Kind == "mapupdate" {
+					if stripConv(fw.Instr.(*ssa.MapUpdate).Value) == ssa.Value(sch.Params[1]) {
+						inserted = true
+					}
+				}
+			}
+			for _, ci := range callInstrs(sch) {
+				if o := calleeObj(ci); o != nil && o.Name() == "Push" && pr.Blocks[ci.Block()] {
+					queued = true
+				}
+			}
+			if found {
+				nDup++
+				if !linked {
+					bad = "a request that is already pending does not receive the new request's parents: the second parent is committed without waiting for the shared child"
+				}
+			} else {
+				nNew++
+				if !(inserted && queued) {
+					bad = "a new request is not put into both the requests map and the queue"
+				}
+			}
+		})
+		c.sites += nDup + nNew
+		c.Check(fname(sch)+"#keeps-dependency-edges", sch.Pos(), okEnum && bad == "" && nDup > 0 && nNew > 0, ifelse(okEnum && bad == "" && nDup > 0 && nNew > 0, "pending: parents appended; new: inserted and queued", ifelse(bad != "", bad, "the paths of schedule could not be enumerated")))
+		// Process: refuse before touching
+		pr := w.Fn("trie", "Sync", "Process")
+		c.sawFunc(fname(pr))
+		dataF := w.Field("trie", "request", "data")
+		chObj := w.FuncObj("trie", "Sync", "children")
+		var dataStores []ssa.Instruction
+		for _, fw := range fieldWrites(pr) {
+			if fw.Field == dataF {
+				dataStores = append(dataStores, fw.Instr)
+			}
+		}
+		okGate := len(dataStores) > 0
+		for _, st := range dataStores {
+			c.sites++
+			nonNilReq, freshData := false, false
+			for _, a := range atomsOf(factsAtInstr(st)) {
+				if a.Kind != "isnil" {
+					continue
+				}
+				if lk, ok := stripConv(a.X).(*ssa.Lookup); ok && !a.Truth {
+					if f, _ := loadedField(stripConv(lk.X)); f == requestsF {
+						nonNilReq = true
+					}
+				}
+				if f, _ := loadedField(stripConv(a.X)); f == dataF && a.Truth {
+					freshData = true
+				}
+			}
+			if !nonNilReq || !freshData {
+				okGate = false
+			}
+		}
+		c.Check(fname(pr)+"#refuses-unrequested-and-processed", pr.Pos(), okGate, ifelse(okGate, "every store of result data is dominated by request != nil and request.data == nil", "result data is stored into a request without the not-requested / already-processed tests: a duplicate delivery re-opens a committed node's children, an unrequested one is dereferenced"))
+		okOrder := false
+		for _, cc := range callsTo(pr, chObj) {
+			c.sites++
+			for _, st := range dataStores {
+				if instrDominates(st, cc) {
+					okOrder = true
+				}
+			}
+		}
+		c.Check(fname(pr)+"#data-before-children", pr.Pos(), okOrder, ifelse(okOrder, "request.data is set before its children are computed and scheduled", "children are scheduled for a request whose data is not stored yet: when the last child completes, the parent is committed with empty data"))
+	}
+
 	// ------------------------------------------------------------ Z7
 	c.Rule("C19.Z7", "EXIT", "the error of the final forced flush in (*trieSync).loop — the deferred commit(true), which writes the root — reaches the function's result: the deferred closure stores it into the result variable, and every return reads that variable after the deferred calls ran; Wait() hands out exactly that error")
 	c.Min(2)
@@ -453,6 +568,9 @@ func c19Variants() []Variant {
 	return []Variant{
 		{Name: "hash-from-request", File: "you/downloader/triesync.go", Old: "	s.keccak.Sum(res.Hash[:0])\n", New: "	for h := range s.tasks {\n		res.Hash = h\n		break\n	}\n", Rule: "C19.Z1", Construct: "processNodeData"},
 		{Name: "commit-ignoring-deps", File: "trie/sync.go", Old: "		if len(requests) == 0 && request.deps == 0 {", New: "		if len(requests) == 0 {", Rule: "C19.Z2", Construct: "Process#commit"},
+		{Name: "schedule-drops-parent-link", File: "trie/sync.go", Old: "		old.parents = append(old.parents, req.parents...)\n		return", New: "		_ = old\n		return", Rule: "C19.Z8", Construct: "keeps-dependency-edges"},
+		{Name: "process-accepts-processed", File: "trie/sync.go", Old: "		if request.data != nil {\n			return committed, i, ErrAlreadyProcessed\n		}\n", New: "", Rule: "C19.Z8", Construct: "refuses-unrequested-and-processed"},
+		{Name: "commit-deletes-piecemeal", File: "trie/sync.go", Old: "			return i, err\n		}\n	}\n	written := len(s.membatch.order)", New: "			return i, err\n		}\n		delete(s.membatch.batch, key)\n	}\n	written := len(s.membatch.order)", Rule: "C19.Z3", Construct: "batch-dropped-only-as-a-whole"},
 		{Name: "commit-in-map-order", File: "trie/sync.go", Old: "	for i, key := range s.membatch.order {\n		if err := dbw.Put(key[:], s.membatch.batch[key]); err != nil {\n			return i, err\n		}\n	}", New: "	i := 0\n	for key, val := range s.membatch.batch {\n		if err := dbw.Put(key[:], val); err != nil {\n			return i, err\n		}\n		i++\n	}", Rule: "C19.Z3", Construct: "Commit"},
 	}
 }
